@@ -27,8 +27,9 @@ PoolC01 == {S(C(1,"ok")), S(N("ok")), B2(C(1,"ok"), C(2,"ok")), B2(C(1,"ok"), N(
             B2(C(1,"ok"), Inv(2)), B1(InvNoId), B2(C(1,"nf"), N("nf")), G, E}
 PoolC03 == {S(N("ok")), S(C(1,"ok")), S(C(2,"ok")), B2(N("ok"), C(1,"ok")), B2(C(1,"ok"), C(2,"ok")), B2(N("ok"), N("ok"))}
 PoolC06 == {S(C(1,"ok")), S(C(2,"ok")), B2(C(1,"ok"), C(2,"ok")), B3(C(1,"ok"), C(2,"ok"), C(3,"ok")), S(N("ok")), S(C(3,"info"))}
-PoolC07 == {S(C(1,"ok")), S(C(1,"nf")), S(C(1,"rpc")), S(C(2,"ok")), B2(C(1,"ok"), C(1,"ok")), B2(C(1,"nf"), C(2,"ok")), S(N("ok"))}
-PoolC08 == {S(N("ok")), S(C(1,"ok")), S(InvNote), G, E, B2(C(1,"ok"), N("ok"))}
+PoolC07 == {S(C(1,"ok")), S(C(1,"nf")), S(C(1,"rpc")), S(C(2,"ok")), B2(C(1,"ok"), C(1,"ok")), B2(C(1,"nf"), C(2,"ok")), S(N("ok")),
+            B3(C(1,"ok"), C(1,"ok"), C(2,"ok")), B2(Inv(1), C(2,"ok")), B2(InvNoId, C(1,"ok"))}   \* never-executed members before an executed call
+PoolC08 == {S(N("ok")), S(C(1,"ok")), S(InvNote), G, E, B2(C(1,"ok"), N("ok")), B2(N("ok"), C(1,"ok"))}
 PoolC09 == {S(C(1,"ok")), S(N("ok")), S(R(1)), S(R(2)), B2(R(1), C(1,"ok")), B2(R(1), R(1))}
 PoolC09r == {S(R(1)), S(R(2)), S(N("ok"))}
 PoolSmall == {S(N("ok")), S(C(1,"ok")), G}
